@@ -227,7 +227,11 @@ func zero(t types.Type) value {
 	case *types.Pointer:
 		return (*value)(nil)
 	case *types.Array:
-		a := make(array, t.Len())
+		n := t.Len()
+		if rebaseOn && n >= rebaseBase-64 && n <= rebaseBase+64 {
+			n = rebaseC + (n - rebaseBase)
+		}
+		a := make(array, n)
 		for i := range a {
 			a[i] = zero(t.Elem())
 		}
